@@ -1334,12 +1334,16 @@ package server
 //@   ensures C10.relay.match,C03.relay.match: forallref(t, TextServerProtocol, implies(t.lockRequestId != old(t.lockRequestId), istype(command, *protocol.LockResultCommand) && old(t.lockRequestId) == astype(command, *protocol.LockResultCommand).ResultCommand.RequestId))
 //@   modifies all
 
-// C03: once a reply has been handed to a text connection's waiter, the connection has no outstanding request:
+// C03: a text connection parks a reply for its handler only when the handler is waiting for that very request (PUSH is
+// answered at once and waits for nothing: its reply must not be taken for the next command's), exactly once, and
+// once a reply has been handed to a text connection's waiter, the connection has no outstanding request:
 // the outstanding id is cleared on every path, so a later asynchronous reply for the same request is dropped
 // by ProcessLockResultCommandLocked instead of being parked as the answer to the next command
 //@ func (*TextServerProtocol).ProcessLockResultCommand
 //@   requires self != nil && lockCommand != nil
-//@   ensures C03.text.cleared: forall(k, 0, 16, self.lockRequestId[k] == 0)
+//@   ensures C03.text.cleared: old(self.closed) || old(self.lockRequestId) != lockCommand.RequestId || forall(k, 0, 16, self.lockRequestId[k] == 0)
+//@   ensures C03.text.awaited: implies(!old(self.closed) && old(self.lockRequestId) != lockCommand.RequestId, calls(chansend) == 0 && isnil(result0) && self.freeCommandResult == old(self.freeCommandResult))
+//@   ensures C03.text.parked-once: implies(!old(self.closed) && old(self.lockRequestId) == lockCommand.RequestId, calls(chansend) == 1)
 //@   ensures C18.text.closed-drops: implies(old(self.closed), !isnil(result0))
 //@   modifies all
 //@ func (*TextServerProtocol).ProcessLockResultCommandLocked
